@@ -39,6 +39,7 @@ func c16Build(name string, seed uint64) *lib.Build {
 		b.PutFile("d/e/c.bin", lib.RandomBytes(100, r.Uint64()))
 		b.PutSymlink("lnk", "a.bin")
 		b.PutDir("hollow")
+		b.PutFile("z-empty.bin", nil) // the LAST file of the container is empty: its only possible wound has an empty range
 	case "files300":
 		for i := 0; i < 300; i++ {
 			b.PutFile(fmt.Sprintf("d%d/f%03d.bin", i%7, i), lib.RandomBytes(int64(1+r.Intn(400)), r.Uint64()))
@@ -136,7 +137,16 @@ func c16Cases(tier string, seed uint64, flavor string) []lib.Case {
 			i++
 		}
 	}
-	cancelCases("files3", []string{"none", "first", "last", "all"}, 3, 1)
+	cancelCases("files3", []string{"none", "first", "last", "all"}, 4, 1)
+	// the file worker fails (the signature carries one hash less than the container needs): Validate must still return
+	for _, bdn := range []string{"files3", "files300"} {
+		for _, cons := range []string{"failfast", "wounds-good", "printer", "heal-good"} {
+			for k := 0; k < 6; k++ {
+				add(c16Spec{Build: bdn, Damage: "short-signature", Consumer: cons, Cancel: "none", Sched: []string{"none", "perturb"}[k%2], SchedSeed: lib.Mix(seed, uint64(i)), Procs: []int{1, 4, 16}[k%3]})
+				i++
+			}
+		}
+	}
 	ev := 15
 	if tier == "thorough" {
 		ev = 1 // every file of the 300-file build
@@ -207,11 +217,16 @@ func c16Run(c lib.Case, env *lib.Env) lib.Result {
 		b, _ := os.ReadFile(p)
 		if len(b) > 0 {
 			b[0] ^= 1
+		} else if files[i].Size == 0 {
+			os.Remove(p) // an empty file can only go missing (or change kind)
+			return
 		}
 		os.WriteFile(p, b, 0o644)
 	}
 	rmDir := func(i int) { os.RemoveAll(filepath.Join(dir, filepath.FromSlash(sig.Container.Dirs[i].Path))) }
 	switch s.Damage {
+	case "short-signature":
+		sig = &pwr.SignatureInfo{Container: sig.Container, Hashes: sig.Hashes[:len(sig.Hashes)-1]}
 	case "first":
 		dmgFile(0)
 	case "last":
@@ -339,13 +354,16 @@ func c16Run(c lib.Case, env *lib.Env) lib.Result {
 	}
 	if s.Consumer == "failfast" {
 		res.Add("failfast_verdicts", 1)
+		if verr == nil && s.Damage == "short-signature" {
+			res.Add("short_signature_validations_returning_nil", 1)
+		}
 		if verr == nil && deviates {
 			res.Violate("failfast-false-valid:"+cancelClass(s.Cancel), desc, fmt.Sprintf("fail-fast Validate returned nil on a directory that differs from the signed build (cancelled=%v, ctx.Err=%v)", sc.DidCancel() || s.Cancel == "before", ctx.Err()))
 		}
 		if verr == nil {
 			res.Add("failfast_nil_verdicts_checked_against_truth", 1)
 		}
-		if s.Cancel == "none" && !deviates && verr != nil {
+		if s.Cancel == "none" && !deviates && verr != nil && s.Damage != "short-signature" {
 			res.Violate("failfast-rejects-valid", desc, verr.Error())
 		}
 	}
@@ -413,7 +431,7 @@ func init() {
 	lib.Register(&lib.Property{
 		ID:          "C16",
 		Level:       "fault_enumeration",
-		Rule:        "builds of 3 files / 300 small files / 1300 small files / 2500 directories; damage none / first file / last file only / every entry / exactly 1023, 1024, 1025 wound-producing entries (around the 1024-slot wound channel); consumers fail-fast, wounds file (good path, path in a missing directory, /dev/full), printer, healer (good archive, missing archive, archive whose 1st / 2nd / last file entry is corrupted); cancellation before Validate, at the 1st/2nd directory check, after the directory pass, at the main select and at file start for every i (3-file build; every 15th file of the 300-file build in quick, every file in thorough), after the last file was queued, before the wound channel is closed, and from inside Consumer.OnProgress at the 1st/2nd/5th callback; schedules none / seeded perturbation at the verif hooks; GOMAXPROCS 1/16. Oracle: (1) the call returned - decided by a quiescence detector over goroutine dumps, (2) fail-fast err == nil implies the independent tree comparison finds no deviation. distinct = distinct (build, damage, consumer, cancel class, schedule, GOMAXPROCS)",
+		Rule:        "builds of 3 files + a trailing empty file / 300 small files / 1300 small files / 2500 directories; damage none / first file / last file only / every entry / exactly 1023, 1024, 1025 wound-producing entries (around the 1024-slot wound channel); consumers fail-fast, wounds file (good path, path in a missing directory, /dev/full), printer, healer (good archive, missing archive, archive whose 1st / 2nd / last file entry is corrupted); cancellation before Validate, at the 1st/2nd directory check, after the directory pass, at the main select and at file start for every i (3-file build; every 15th file of the 300-file build in quick, every file in thorough), after the last file was queued, before the wound channel is closed, and from inside Consumer.OnProgress at the 1st/2nd/5th callback; schedules none / seeded perturbation at the verif hooks; GOMAXPROCS 1/16; a failing file worker (signature one hash short) under every consumer kind; after a cancelled fail-fast run the same context validates once more. Oracle: (1) the call returned - decided by a quiescence detector over goroutine dumps, (2) fail-fast err == nil implies the independent tree comparison finds no deviation. distinct = distinct (build, damage, consumer, cancel class, schedule, GOMAXPROCS)",
 		Assumptions: []string{"goroutines left alive after return are reported in the evidence, not judged", "an error return on a valid directory is allowed when the run was cancelled"},
 		Flavors: func(tier string) []string {
 			if tier == "thorough" {
